@@ -70,3 +70,37 @@ Theorem C13g_buf_utf8 : forall cf fmt32 fmt64 F v (o : oracle) (fuel : nat), ryu
 Proof. exact (@WriterGenProps.C13g_buf_utf8). Qed.
 Print Assumptions C13g_buf_utf8.
 
+
+(* ---- the harness's fault-injecting writer as a state machine (Model/WriterMachine.v mirrors harness/src/rw.rs ChunkWriter::write: persistent, one-shot, all-or-nothing
+        sink, cyclic short-write schedules with Interrupted): it is an oracle instance, so the general theorems apply; the extracted machine runs against the crate ---- *)
+From SJ Require Import Base.Bytes Base.Utf8 Model.Read Model.Sval Model.Ser Model.WriterGen Model.WriterMachine
+  Spec.Layout Proofs.SerWriter Proofs.SerMain Proofs.WriterGenProps.
+From SJ Require Extract.Driver Extract.Driver_ser Extract.Driver_wgen.
+From Coq Require Import Lia.
+From SJ Require Import Proofs.WriterMachineProps.
+Theorem C13m_machine_is_oracle : forall {A St} (m : wmachine St) (fuel : nat) (t : tr A),  mrun fuel m t = mview m (grun_writer fuel (oracle_of_machine m) g0 t).
+Proof. exact (@WriterMachineProps.mrun_is_grun). Qed.
+Print Assumptions C13m_machine_is_oracle.
+
+Theorem C13m_chunkwriter_spec : forall {A} p fuel (t : tr A), sched_ok (p_sched p) = true -> cw_fuel p (fst t) <= fuel ->
+  let x := cw_run p fuel t in
+  cr_after x = 0 /\ is_prefix (cr_accepted x) (concat (fst t))
+  /\ ((cr_fired x = false /\ cr_result x = snd t /\ cr_accepted x = concat (fst t))
+      \/ (cr_fired x = true /\ cr_result x = Err (Io (p_kind p)) O)).
+Proof. exact (@WriterMachineProps.cw_run_spec). Qed.
+Print Assumptions C13m_chunkwriter_spec.
+
+Theorem C13m_failing_call_is_last : forall {A} p fuel (t : tr A),  let s := fst (fst (mrun fuel (cw_machine p) t)) in
+  let r := snd (mrun fuel (cw_machine p) t) in
+  forall h2 b h1, c_buffers s = h2 ++ b :: h1 ->
+  forall kind, cwo p h1 b = RFail kind -> h2 = [] /\ kind = p_kind p /\ r = Err (Io kind) O /\ c_fired s = true.
+Proof. exact (@WriterMachineProps.cw_failing_call_is_last). Qed.
+Print Assumptions C13m_failing_call_is_last.
+
+Theorem C13m_persistent_is_old : forall {A} (p : cwp) (sc : list nat) (fuel : nat) (t : tr A),  p_cap p = None -> sched_ok (p_sched p) = true -> cw_fuel p (fst t) <= fuel ->
+  let fa := match p_fail_at p with Some k => Some (k, p_kind p) | None => None end in
+  cr_accepted (cw_run p fuel t) = accepted (fst (run_writer (mkW [] sc fa) t))
+  /\ cr_result (cw_run p fuel t) = snd (run_writer (mkW [] sc fa) t).
+Proof. exact (@WriterMachineProps.machine_persistent_is_old). Qed.
+Print Assumptions C13m_persistent_is_old.
+
